@@ -239,7 +239,12 @@ def respBody (b : Bytes) (n : Nat) : Bytes := sub (b.take n) 9 (n - 1)
 
 def judgeProc (prop : String) (s : SpecSt) (p buf : Bytes) (o : ProcObs) (outside : Bool)
     (buf' : Bytes) (eidsAfter : B × B) : Verdict :=
-  let pre := s.configOk && decide (64 ≤ buf.length)
+  -- validly configured, and the buffer is long enough for the response the specification prescribes
+  -- (64 bytes always are; exactly sized buffers count too: Refine.process_eq_ref_fit)
+  let pre := s.configOk &&
+    (match expectedResponse s p with
+     | some body => decide (10 + body.length ≤ buf.length)
+     | none => true)
   let nv := s.vendors.length
   match prop with
   | "C02" =>
